@@ -18,7 +18,7 @@ import minif
 from common import sx, parse_sx
 from props import c06_real as R
 
-MODE_FIXED = 0          # the Lean model follows /repo HEAD (shortcut for any two dimensions of the same array)
+MODE_FIXED = int(__import__("os").environ.get("C06_SR_FIXED", "0"))          # the Lean model follows /repo HEAD (shortcut for any two dimensions of the same array)
 KNOWN_ID = "C06-same-array-cross-dimension"
 E = 4                   # every dimension has 4 elements
 
@@ -154,9 +154,9 @@ def pick_form(cls, arr, pos, salt):
     return forms[salt % len(forms)] if forms else None
 
 
-def make_case(li, ri, cls, salt, red=False):
+def make_case(li, ri, cls, salt, red=False, forms=None):
     (la, lp), (ra, rp) = SLOTS[li], SLOTS[ri]
-    lf, rf = pick_form(cls, la, lp, salt), pick_form(cls, ra, rp, salt // 2 + 1)
+    lf, rf = forms or (pick_form(cls, la, lp, salt), pick_form(cls, ra, rp, salt // 2 + 1))
     if lf is None or rf is None:
         return None
     lt, rt = access(la, lp, lf, salt), access(ra, rp, rf, salt + 1)
@@ -171,6 +171,10 @@ def make_case(li, ri, cls, salt, red=False):
             "target": ["assign"], "show": la, "reinit": la}
 
 
+CORE_R = [("x1", 0), ("y1", 0), ("z1", 0), ("e1", 0), ("f1", 0), ("g1", 0), ("h1", 0), ("y2", 1), ("f3", 1)]
+CORE_L = CORE_R + [("e2", 1), ("h2", 0), ("y3", 2)]
+
+
 def enumerate_cases(rng, tier):
     """systematic enumeration of (lhs slot, rhs slot); the range-form class and the fixed subscripts rotate with the
     pair number and the seed.  quick: a seeded stride sample; thorough: every pair."""
@@ -178,7 +182,14 @@ def enumerate_cases(rng, tier):
     classes = list(CLASSES)
     off = rng.randrange(1000)
     cases = []
-    step = 1 if tier == "thorough" else 6
+    # core, run in every tier: every kind of declaration against every kind of declaration with BOTH ranges written `:`
+    # (the declared lower bounds alone decide whether the index is shared); lhs side also in a second position
+    for la, lp in CORE_L:
+        for k, (ra, rp) in enumerate(CORE_R):
+            c = make_case(SLOTS.index((la, lp)), SLOTS.index((ra, rp)), "full", off + k, forms=("colon", "colon"))
+            if c:
+                cases.append(c)
+    step = 1 if tier == "thorough" else 8
     start = rng.randrange(step)
     for k, (li, ri) in enumerate(pairs):
         if (k - start) % step:
